@@ -294,7 +294,8 @@ class error_997_visitor(error_visitor.error_visitor):
         """
         seg_data = pyx12.segment.Segment('AK2', '~', '*', ':')
         seg_data.append(err_st.trn_set_id)
-        seg_data.append(err_st.trn_set_control_num.strip())
+        # an ST without ST02 has no control number: acknowledged with an empty AK202
+        seg_data.append((err_st.trn_set_control_num or '').strip())
         self._write(seg_data)
 
     def __get_st_errors(self, err_st):
